@@ -404,6 +404,18 @@ def run_case(inp, with_obs=True):
                 rec.fail("oracle/maps", f"x_to_s({xl}) = {vfmt(s_o)}, expected {vfmt(sF)}", where)
             if xb_o != xF:
                 rec.fail("oracle/maps", f"s_to_x(x_to_s({xl})) = {vfmt(xb_o)}, expected {vfmt(xF)}", where)
+            # the maps on other legal element types of a binary / spin vector
+            for dt in (bool, np.int8, np.float32):
+                try:
+                    s_dt = fr_vec(qt.x_to_s(np.array(xl, dtype=dt)))
+                    x_dt = fr_vec(qt.s_to_x(np.array([int(t) for t in sF], dtype=(np.int8 if dt is bool else dt))))
+                except Exception as e:  # noqa
+                    rec.fail("oracle/maps-raised", f"x_to_s / s_to_x raised {type(e).__name__} on a {np.dtype(dt).name} vector {xl}", where)
+                    break
+                if s_dt != sF or x_dt != xF:
+                    rec.fail("oracle/maps", f"x_to_s({xl} as {np.dtype(dt).name}) = {vfmt(s_dt)}, expected {vfmt(sF)}; "
+                                            f"s_to_x of the spins = {vfmt(x_dt)}, expected {vfmt(xF)}", {**where, "dtype": np.dtype(dt).name})
+                    break
             # evaluators against the exact reference
             if vq_o != ref_qubo(Q, c, xF):
                 rec.fail("oracle/evaluate_QUBO", f"evaluate_QUBO = {vq_o}, exact x'Qx+c = {ref_qubo(Q, c, xF)} at x={xl}",
